@@ -23,6 +23,7 @@ func init() {
 		},
 		Run: runC26,
 		Controls: []Control{
+			{Name: "api-reads-the-adj-rib-in-without-the-state-lock", File: "protocols/bgp/server/server.go", Old: "\tribIn, _ := fsm.establishedRIBs(afi, safi)\n\tr, _ := ribIn.(*adjRIBIn.AdjRIBIn)\n\treturn r\n", New: "\tf := fsm.addressFamily(afi, safi)\n\tif f == nil {\n\t\treturn nil\n\t}\n\tr, _ := f.adjRIBIn.(*adjRIBIn.AdjRIBIn)\n\treturn r\n", Expect: "guarded-by"},
 			{Name: "attributes-deduplicated-after-the-path-was-queued", File: "routingtable/adjRIBOut/adj_rib_out.go", Old: "\tp.BGPPath = p.BGPPath.Dedup()\n\n\treturn a.addPath(pfx, p)\n", New: "\terr := a.addPath(pfx, p)\n\tp.BGPPath = p.BGPPath.Dedup()\n\treturn err\n", Expect: "no-write-after-publish"},
 			{Name: "client-map-handed-out-live", File: "routingtable/client_manager.go", Old: "// GetOptions gets the options for a registered client\n", New: "func (c *ClientManager) ClientsWithOptions() map[RouteTableClient]ClientOptions {\n\tc.mu.RLock()\n\tdefer c.mu.RUnlock()\n\n\treturn c.clients\n}\n\n// GetOptions gets the options for a registered client\n", Expect: "guarded-reference-stays-inside"},
 			{Name: "refactor-explicit-unlocks", Silent: true, File: "protocols/bgp/server/peer.go", Old: "func (p *peer) singleFSM() *FSM {\n\tp.fsmsMu.Lock()\n\tdefer p.fsmsMu.Unlock()\n\n\tif len(p.fsms) != 1 {\n\t\treturn nil\n\t}\n\n\treturn p.fsms[0]\n}", New: "func (p *peer) singleFSM() *FSM {\n\tp.fsmsMu.Lock()\n\tif len(p.fsms) != 1 {\n\t\tp.fsmsMu.Unlock()\n\t\treturn nil\n\t}\n\n\tfsm := p.fsms[0]\n\tp.fsmsMu.Unlock()\n\treturn fsm\n}"},
@@ -61,6 +62,34 @@ var c26Table = []guardRow{
 	{Pkg: srv, Type: "FSM", Field: "establishedTime", LockType: "FSM", Lock: "stateMu"},
 	{Pkg: srv, Type: "FSM", Field: "ribsInitialized", LockType: "FSM", Lock: "stateMu", Exempt: map[string]string{
 		srv + ".(establishedState).run": "the FSM goroutine is the only writer; its own read needs no lock",
+	}},
+	{Pkg: srv, Type: "fsmAddressFamily", Field: "adjRIBIn", LockType: "FSM", Lock: "stateMu", Exempt: map[string]string{
+		srv + ".(*fsmAddressFamily).init":                  "the FSM goroutine assigns and clears the Adj-RIBs (init/dispose) and is their only writer; its own accesses need no lock \u2014 other goroutines read them through FSM.establishedRIBs under stateMu after checking ribsInitialized",
+		srv + ".(*fsmAddressFamily).dispose":               "the FSM goroutine assigns and clears the Adj-RIBs (init/dispose) and is their only writer; its own accesses need no lock \u2014 other goroutines read them through FSM.establishedRIBs under stateMu after checking ribsInitialized",
+		srv + ".(*fsmAddressFamily).bmpInit":               "BMP pseudo session: created and driven only by the router's single goroutine",
+		srv + ".(*fsmAddressFamily).bmpDispose":            "BMP pseudo session: created and driven only by the router's single goroutine",
+		srv + ".(*fsmAddressFamily).withdraws":             "the FSM goroutine assigns and clears the Adj-RIBs (init/dispose) and is their only writer; its own accesses need no lock \u2014 other goroutines read them through FSM.establishedRIBs under stateMu after checking ribsInitialized",
+		srv + ".(*fsmAddressFamily).updates":               "the FSM goroutine assigns and clears the Adj-RIBs (init/dispose) and is their only writer; its own accesses need no lock \u2014 other goroutines read them through FSM.establishedRIBs under stateMu after checking ribsInitialized",
+		srv + ".(*fsmAddressFamily).multiProtocolUpdate":   "the FSM goroutine assigns and clears the Adj-RIBs (init/dispose) and is their only writer; its own accesses need no lock \u2014 other goroutines read them through FSM.establishedRIBs under stateMu after checking ribsInitialized",
+		srv + ".(*fsmAddressFamily).multiProtocolWithdraw": "the FSM goroutine assigns and clears the Adj-RIBs (init/dispose) and is their only writer; its own accesses need no lock \u2014 other goroutines read them through FSM.establishedRIBs under stateMu after checking ribsInitialized",
+		srv + ".(*neighbor).registerClients":               "BMP pseudo session: created and driven only by the router's single goroutine",
+		srv + ".(*Router).processPeerUpNotification":       "BMP pseudo session: created and driven only by the router's single goroutine",
+		srv + ".(*Router).SubscribeRIBs":                   "BMP pseudo session: created and driven only by the router's single goroutine",
+		srv + ".(*Router).UnsubscribeRIBs":                 "BMP pseudo session: created and driven only by the router's single goroutine",
+	}},
+	{Pkg: srv, Type: "fsmAddressFamily", Field: "adjRIBOut", LockType: "FSM", Lock: "stateMu", Exempt: map[string]string{
+		srv + ".(*fsmAddressFamily).init":                  "the FSM goroutine assigns and clears the Adj-RIBs (init/dispose) and is their only writer; its own accesses need no lock \u2014 other goroutines read them through FSM.establishedRIBs under stateMu after checking ribsInitialized",
+		srv + ".(*fsmAddressFamily).dispose":               "the FSM goroutine assigns and clears the Adj-RIBs (init/dispose) and is their only writer; its own accesses need no lock \u2014 other goroutines read them through FSM.establishedRIBs under stateMu after checking ribsInitialized",
+		srv + ".(*fsmAddressFamily).bmpInit":               "BMP pseudo session: created and driven only by the router's single goroutine",
+		srv + ".(*fsmAddressFamily).bmpDispose":            "BMP pseudo session: created and driven only by the router's single goroutine",
+		srv + ".(*fsmAddressFamily).withdraws":             "the FSM goroutine assigns and clears the Adj-RIBs (init/dispose) and is their only writer; its own accesses need no lock \u2014 other goroutines read them through FSM.establishedRIBs under stateMu after checking ribsInitialized",
+		srv + ".(*fsmAddressFamily).updates":               "the FSM goroutine assigns and clears the Adj-RIBs (init/dispose) and is their only writer; its own accesses need no lock \u2014 other goroutines read them through FSM.establishedRIBs under stateMu after checking ribsInitialized",
+		srv + ".(*fsmAddressFamily).multiProtocolUpdate":   "the FSM goroutine assigns and clears the Adj-RIBs (init/dispose) and is their only writer; its own accesses need no lock \u2014 other goroutines read them through FSM.establishedRIBs under stateMu after checking ribsInitialized",
+		srv + ".(*fsmAddressFamily).multiProtocolWithdraw": "the FSM goroutine assigns and clears the Adj-RIBs (init/dispose) and is their only writer; its own accesses need no lock \u2014 other goroutines read them through FSM.establishedRIBs under stateMu after checking ribsInitialized",
+		srv + ".(*neighbor).registerClients":               "BMP pseudo session: created and driven only by the router's single goroutine",
+		srv + ".(*Router).processPeerUpNotification":       "BMP pseudo session: created and driven only by the router's single goroutine",
+		srv + ".(*Router).SubscribeRIBs":                   "BMP pseudo session: created and driven only by the router's single goroutine",
+		srv + ".(*Router).UnsubscribeRIBs":                 "BMP pseudo session: created and driven only by the router's single goroutine",
 	}},
 	{Pkg: srv, Type: "UpdateSender", Field: "toSend", LockType: "UpdateSender", Lock: "toSendMu", Exempt: map[string]string{srv + ".newUpdateSender": "constructor"}},
 	{Pkg: "routingtable", Type: "ClientManager", Field: "clients", LockType: "ClientManager", Lock: "mu", Exempt: map[string]string{"routingtable.NewClientManager": "constructor"}},
